@@ -733,6 +733,50 @@ def scorer_build(ctx):
     crate = ctx.facts("A").lib
     E = Effects(crate)
     p = SC + "ScorerBuilder::check_base"
+    if not dict.__contains__(crate.fns, p):
+        # the search written in place: `while second_map.keys().any(|key2| slot(base ^ key2) is
+        # occupied) { base += 1 }` - `any` gives up only after every key (or at the first hit)
+        pb = SC + "ScorerBuilder::build"
+        fb = E.fa(pb)
+        SB = Sym(E, fb)
+        hit = None
+        for b, t in fb.calls():
+            nm = {strip_generics(x).rsplit("::", 1)[-1] for x in callee_paths(t)}
+            if not (nm & {"any", "all"}) or len(t["args"]) != 2:
+                continue
+            o = fb.origin(t["args"][0])
+            keys_of_row = o[0] == "call" and (callee_of(o[2]) or {}).get("name") == "keys"
+            cl = E.closure_of_operand(fb, t["args"][1])
+            if not keys_of_row or cl is None:
+                continue
+            cfa = E.fa(cl[0])
+            region = [cl[0]] + sorted(q for q in crate.fns if q.startswith(cl[0] + "::{closure"))
+            probes = xors = sentinel = 0
+            for q in region:
+                qa = E.fa(q)
+                for qb, qt in qa.calls():
+                    if (callee_of(qt) or {}).get("name") == "get" and len(qt["args"]) == 2:
+                        probes += 1
+                for qb, qi, qs in qa.stmts():
+                    rv = qs.get("rv") or {}
+                    if rv.get("k") == "binop" and rv.get("op") == "BitXor":
+                        xors += 1
+                    if rv.get("k") == "binop" and rv.get("op") in ("Ne", "Eq"):
+                        ks = [find_const_int(qa, rv["a"]), find_const_int(qa, rv["b"])]
+                        if 0xFFFFFFFF in ks or 4294967295 in ks:
+                            sentinel += 1
+            hit = (b, "any" in nm, probes, xors, sentinel)
+        ok = hit is not None and hit[2] >= 1 and hit[3] >= 1 and hit[4] >= 1
+        # the result of `any` must be the loop condition: the base moves on while some slot is taken
+        ctx.ob("SCORERBUILD", "A|check_base|accepts-only-after-all-keys", bool(ok), fn_loc(crate, pb),
+               "a base is accepted only when no key of the row lands on an occupied slot: the search "
+               "condition is an `any`/`all` over all second-level keys probing checks[base ^ key2] "
+               "against the unused marker" if ok else
+               "the base search of ScorerBuilder::build does not probe checks[base ^ key2] against the "
+               "unused marker for every key of the row")
+        ctx.ob("SCORERBUILD", "A|build|searches-free-base", hit is not None, fn_loc(crate, pb),
+               "build() searches a collision-free base before placing a row")
+        return
     fa = E.fa(p)
     nexts = [(b, t) for b, t in fa.calls()
              if any(strip_generics(x).endswith("::next") for x in callee_paths(t))]
